@@ -9,9 +9,10 @@ import subprocess
 import sys
 
 VERIF = os.path.dirname(os.path.dirname(os.path.abspath(__file__)))
+REPO = os.environ.get("VERIF_REPO", "/repo")  # the tree the change is applied to (default: /repo itself)
 
 
-def sh(cmd, cwd="/repo", env=None, timeout=900):
+def sh(cmd, cwd=REPO, env=None, timeout=900):
     e = dict(os.environ)
     e.update(env or {})
     p = subprocess.run(cmd, shell=True, cwd=cwd, capture_output=True, text=True, env=e, timeout=timeout)
@@ -50,12 +51,12 @@ def main():
                 continue
             sh(f"git apply {d}/patch.diff")
             try:
-                drc, dout = sh(f"PYTHONPATH=/repo timeout 300 /venv/bin/python {d}/demo.py")
-                sh("rm -rf /repo/.hypothesis"); trc, tout = sh("/venv/bin/python -m pytest -q -p no:cacheprovider --continue-on-collection-errors 2>&1 | tail -1")
-                crc, cout = sh(f"./check {prop}", cwd=VERIF, env={"VERIF_NO_EVIDENCE": "1"})
+                drc, dout = sh(f"PYTHONPATH={REPO} timeout 300 /venv/bin/python {d}/demo.py")
+                sh(f"rm -rf {REPO}/.hypothesis"); trc, tout = sh("/venv/bin/python -m pytest -q -p no:cacheprovider --continue-on-collection-errors 2>&1 | tail -1")
+                crc, cout = sh(f"./check {prop}", cwd=VERIF, env={"VERIF_NO_EVIDENCE": "1", "VERIF_REPO": REPO})
             finally:
                 sh("git checkout -- .")
-            crc0, dout0 = sh(f"PYTHONPATH=/repo timeout 300 /venv/bin/python {d}/demo.py")
+            crc0, dout0 = sh(f"PYTHONPATH={REPO} timeout 300 /venv/bin/python {d}/demo.py")
             viol = [l for l in cout.splitlines() if l.startswith("VIOLATION")]
             errs = [l for l in cout.splitlines() if l.startswith("CHECKER-ERROR")]
             tests_ok = "1385 passed" in tout
